@@ -297,8 +297,9 @@ def h01u(c, K=4):
     with cm.config_set(simulated=True, place_latency=0.0):
         ms = c.cents("max_selection", 0, 5000000)
         fl, (client,), (strategy,) = cm.new_sim(strategy_kwargs=dict(max_order_exposure=None, max_selection_exposure=ms, max_live_trade_count=1, max_trade_count=100))
-        deep = [{"price": 1000.0, "size": 10000000.0}]
-        bk = cm.book([cm.runner(1, atb=deep, atl=[{"price": 1.01, "size": 10000000.0}]), cm.runner(2)])
+        # the best level may be thinner than an order (it is then partly matched and its remainder rests); a deep level waits behind it
+        thin = c.cents("best_level_size", 1, 5000000) if c.choose("best_level", ["deep", "thin"]) == "thin" else 10000000.0
+        bk = cm.book([cm.runner(1, atb=[{"price": 2.0, "size": thin}, {"price": 1.5, "size": 10000000.0}], atl=[{"price": 2.5, "size": 10000000.0}]), cm.runner(2)])
         market = cm.add_market(fl, bk)
         from flumine.order.trade import Trade
         sent, trades = [], []
@@ -306,18 +307,25 @@ def h01u(c, K=4):
         def ack():
             while fl.handler_queue:
                 p = fl.handler_queue.pop(0)
-                sent.extend(p._orders)
+                if p.package_type == OrderPackageType.PLACE:
+                    sent.extend(p._orders)
                 client.execution.handler(p)
             fl._process_simulated_orders(market)
 
         with fl.simulated_datetime:
             for k in range(K):
                 pending = any(o.status == OrderStatus.PENDING for o in market.blotter)
-                acts = ["new-trade", "acknowledge"] + (["latest-trade"] if trades and not pending else [])
+                resting = [o for o in market.blotter if o.status == OrderStatus.EXECUTABLE and c.is_true(o.size_remaining > 0)]
+                acts = ["new-trade", "acknowledge"] + (["latest-trade"] if trades and not pending else []) + (["re-price-resting-order"] if resting and not pending else [])
                 act = c.choose("step%d" % k, acts)
                 with c.guard("step%d" % k):
                     if act == "acknowledge":
                         ack()
+                        continue
+                    if act == "re-price-resting-order":
+                        # price replacement of a (partly matched) resting order down to the deep level: only the remainder is re-placed
+                        if market.replace_order(resting[0], 1.5):
+                            c.cover("re-priced")
                         continue
                     tr = Trade(cm.MID, 1, 0, strategy) if act == "new-trade" else trades[-1]
                     o = tr.create_order("BACK", cm.LimitOrder(2.0, c.cents("size%d" % k, 1, 5000000)))
@@ -332,10 +340,11 @@ def h01u(c, K=4):
             with c.guard("final-acknowledgement"):
                 ack()
         loss = 0
-        for o in sent:
-            loss = loss + _order_loss(c, o)
-        c.ob("exchange-side.loss-within-selection-limit", loss <= ms + TOL, orders_sent=len(sent))
-        c.ob("each-order-sent-once", len(set(id(o) for o in sent)) == len(sent))
+        for o in market.blotter:  # (every order the exchange knows, replacement orders created by the execution layer included)
+            if o.bet_id is not None:
+                loss = loss + _order_loss(c, o)
+        c.ob("exchange-side.loss-within-selection-limit", loss <= ms + TOL * max(1, len(market.blotter)), orders_sent=len(sent))
+        c.ob("each-order-placed-once", len(set(id(o) for o in sent)) == len(sent))
 
 
 OUT = ["more than n prior orders per selection", "prices outside the finite set in mode S / sizes outside the finite set in mode P",
@@ -349,7 +358,7 @@ HARNESSES = [
             pattern="P2 inductive step", requires=["accepted", "refused"], wall_s=(300, 3000), max_paths=(150000, 5000000), outside=OUT),
     Harness("H01t", h01t, pattern="P3 short history (batching transaction -> real simulated execution)", requires=["accepted", "refused"], outside=OUT),
     Harness("H01u", h01u, quick=dict(K=4), thorough=dict(K=5), pattern="P3 bounded history (default controls, real simulated execution)",
-            requires=["accepted", "refused", "trade-reused"], outside=OUT),
+            requires=["accepted", "refused", "trade-reused", "re-priced"], outside=OUT),
     Harness("H01b", h01b, pattern="P2 inductive step", requires=["event", "sp"], outside=OUT),
     Harness("H01r-S", h01r, quick=dict(n=1, mode="S"), thorough=dict(n=2, mode="S"), pattern="P2 inductive step", requires=["accepted", "refused"],
             wall_s=(300, 3000), max_paths=(150000, 5000000), outside=OUT),
